@@ -2,9 +2,9 @@ package engine
 
 import (
 	"fmt"
-	"os"
 	"go/token"
 	"go/types"
+	"os"
 	"sort"
 	"strings"
 
@@ -48,6 +48,7 @@ type Config struct {
 	Session     *solver.Session
 	InitPkgs    func(path string) bool // run this package's initialiser?
 	PruneBranch bool
+	ForkFuncs   map[string]bool // functions executed path by path (no merging inside)
 	Trace       bool
 	// ExpectedPanic: message substrings that are not runtime errors of interest
 	Intrinsics map[string]Intrinsic
@@ -307,9 +308,10 @@ type retRec struct {
 }
 
 type frame struct {
-	fn      *ssa.Function
-	fi      *fnInfo
-	returns []retRec
+	fn       *ssa.Function
+	fi       *fnInfo
+	returns  []retRec
+	forkMode bool // keep paths separate inside this function (merged again at return)
 }
 
 func (e *Engine) loopBound(fn *ssa.Function) int {
@@ -352,28 +354,41 @@ func childOf(fi *fnInfo, region *loop, b *ssa.BasicBlock) (child *loop, inRegion
 }
 
 type regionOut struct {
-	exits map[*ssa.BasicBlock]*St
-	backs *St
+	exits map[*ssa.BasicBlock][]*St
+	backs []*St
 }
 
-func (e *Engine) runRegion(fr *frame, region *loop, entry *ssa.BasicBlock, st *St) regionOut {
+// join adds s to a list of pending states: merged into one state in merge mode, kept
+// separate in fork (path) mode.
+func (e *Engine) join(fr *frame, list []*St, s *St) []*St {
+	if s == nil || s.pc.IsFalse() {
+		return list
+	}
+	if fr.forkMode || len(list) == 0 {
+		return append(list, s)
+	}
+	list[0] = e.mergeSt(list[0], s)
+	return list
+}
+
+func (e *Engine) runRegion(fr *frame, region *loop, entry *ssa.BasicBlock, sts []*St) regionOut {
 	fi := fr.fi
-	out := regionOut{exits: map[*ssa.BasicBlock]*St{}}
-	pending := map[*ssa.BasicBlock]*St{entry: st}
+	out := regionOut{exits: map[*ssa.BasicBlock][]*St{}}
+	pending := map[*ssa.BasicBlock][]*St{entry: sts}
 	var route func(to *ssa.BasicBlock, s *St)
 	route = func(to *ssa.BasicBlock, s *St) {
 		if s == nil || s.pc.IsFalse() {
 			return
 		}
 		if region != nil && to == region.header {
-			out.backs = e.mergeSt(out.backs, s)
+			out.backs = e.join(fr, out.backs, s)
 			return
 		}
 		if region != nil && !region.body[to] {
-			out.exits[to] = e.mergeSt(out.exits[to], s)
+			out.exits[to] = e.join(fr, out.exits[to], s)
 			return
 		}
-		pending[to] = e.mergeSt(pending[to], s)
+		pending[to] = e.join(fr, pending[to], s)
 	}
 	deliver := func(from, to *ssa.BasicBlock, s *St) {
 		if s.pc.IsFalse() {
@@ -405,8 +420,8 @@ func (e *Engine) runRegion(fr *frame, region *loop, entry *ssa.BasicBlock, st *S
 	start := fi.rpoIdx[entry]
 	for bi := start; bi < len(fi.rpo); bi++ {
 		b := fi.rpo[bi]
-		s := pending[b]
-		if s == nil {
+		list := pending[b]
+		if len(list) == 0 {
 			continue
 		}
 		child, in := childOf(fi, region, b)
@@ -418,7 +433,7 @@ func (e *Engine) runRegion(fr *frame, region *loop, entry *ssa.BasicBlock, st *S
 			if b != child.header {
 				panic(fmt.Sprintf("engine: entered loop not at header in %s", fr.fn))
 			}
-			exits := e.runLoop(fr, child, s)
+			exits := e.runLoop(fr, child, list)
 			// deterministic order
 			var tgts []*ssa.BasicBlock
 			for t := range exits {
@@ -426,36 +441,58 @@ func (e *Engine) runRegion(fr *frame, region *loop, entry *ssa.BasicBlock, st *S
 			}
 			sort.Slice(tgts, func(i, j int) bool { return tgts[i].Index < tgts[j].Index })
 			for _, t := range tgts {
-				route(t, exits[t])
+				for _, s := range exits[t] {
+					route(t, s)
+				}
 			}
 			continue
 		}
-		e.execBlock(fr, b, s, deliver)
+		for _, s := range list {
+			e.execBlock(fr, b, s, deliver)
+		}
 	}
 	return out
 }
 
-func (e *Engine) runLoop(fr *frame, l *loop, st *St) map[*ssa.BasicBlock]*St {
-	all := map[*ssa.BasicBlock]*St{}
+func (e *Engine) runLoop(fr *frame, l *loop, sts []*St) map[*ssa.BasicBlock][]*St {
+	all := map[*ssa.BasicBlock][]*St{}
 	K := e.loopBound(fr.fn)
-	entry := st
-	for pass := 0; ; pass++ {
-		if entry == nil || entry.pc.IsFalse() {
-			break
+	entry := sts
+	known := map[*T]bool{} // path conditions already known to be feasible
+	for _, s := range sts {
+		if s != nil {
+			known[s.pc] = true
 		}
-		if pass > 0 && !entry.pc.IsTrue() && !e.feasible(entry.pc) {
+	}
+	for pass := 0; ; pass++ {
+		var live []*St
+		for _, s := range entry {
+			if s == nil || s.pc.IsFalse() {
+				continue
+			}
+			if pass > 0 && !s.pc.IsTrue() && !known[s.pc] && !e.feasible(s.pc) {
+				continue
+			}
+			known[s.pc] = true
+			live = append(live, s)
+		}
+		if len(live) == 0 {
 			break
 		}
 		if pass >= K {
-			e.Unwinds = append(e.Unwinds, Record{Cond: entry.pc, Msg: fmt.Sprintf("loop in %s not exhausted after %d passes", fr.fn, K), Pos: e.posOf(l.header), Stack: e.where(), Kind: "unwind"})
+			for _, s := range live {
+				e.Unwinds = append(e.Unwinds, Record{Cond: s.pc, Msg: fmt.Sprintf("loop in %s not exhausted after %d passes", fr.fn, K), Pos: e.posOf(l.header), Stack: e.where(), Kind: "unwind"})
+			}
 			break
 		}
 		if e.Cfg.Trace {
-			fmt.Fprintf(os.Stderr, "%*sloop %s@%s pass %d terms=%d instrs=%d pcsize=%d\n", len(e.stack), "", fr.fn.Name(), e.posOf(l.header), pass, e.S.Created, e.Instrs, term.Size(entry.pc))
+			fmt.Fprintf(os.Stderr, "%*sloop %s@%s pass %d states=%d terms=%d instrs=%d\n", len(e.stack), "", fr.fn.Name(), e.posOf(l.header), pass, len(live), e.S.Created, e.Instrs)
 		}
-		ro := e.runRegion(fr, l, l.header, entry)
-		for t, s := range ro.exits {
-			all[t] = e.mergeSt(all[t], s)
+		ro := e.runRegion(fr, l, l.header, live)
+		for t, ss := range ro.exits {
+			for _, s := range ss {
+				all[t] = e.join(fr, all[t], s)
+			}
 		}
 		entry = ro.backs
 	}
@@ -501,53 +538,10 @@ func (e *Engine) curPos() string {
 
 // CallFunc executes fn on args starting from st; st is updated to the merged return state.
 func (e *Engine) CallFunc(st *St, fn *ssa.Function, args []Value, bind []Value) []Value {
-	if fn.Blocks == nil {
-		e.unsupported("call of function without body: " + fn.String())
-	}
-	depth := 0
-	for _, f := range e.stack {
-		if f == fn {
-			depth++
-		}
-	}
-	if depth >= e.Cfg.RecBound {
-		if e.feasible(st.pc) {
-			e.Unwinds = append(e.Unwinds, Record{Cond: st.pc, Msg: fmt.Sprintf("recursion of %s deeper than %d", fn, e.Cfg.RecBound), Stack: e.where(), Kind: "unwind"})
-		}
-		st.pc = e.S.False
-		return e.zeroResults(fn)
-	}
-	if len(e.stack) > 200 {
-		e.unsupported("call stack too deep")
-	}
-	e.FuncsSeen[fn.String()]++
-	if e.Cfg.Trace && e.booting == 0 {
-		fmt.Fprintf(os.Stderr, "%*scall %s terms=%d\n", len(e.stack), "", fn.String(), e.S.Created)
-	}
-	fr := &frame{fn: fn, fi: e.info(fn)}
-	savedStack, savedPos := e.stack, e.posStack
-	e.stack = append(e.stack, fn)
-	e.posStack = append(e.posStack, token.NoPos)
-	defer func() {
-		e.stack, e.posStack = savedStack, savedPos
-	}()
-	ent := &St{pc: st.pc, heap: st.heap, env: make(map[ssa.Value]Value, 32)}
-	if len(args) != len(fn.Params) {
-		panic(fmt.Sprintf("engine: %s called with %d args, wants %d", fn, len(args), len(fn.Params)))
-	}
-	for i, p := range fn.Params {
-		ent.env[p] = args[i]
-	}
-	if len(bind) != len(fn.FreeVars) {
-		panic(fmt.Sprintf("engine: %s called with %d bindings, wants %d", fn, len(bind), len(fn.FreeVars)))
-	}
-	for i, fv := range fn.FreeVars {
-		ent.env[fv] = bind[i]
-	}
-	e.runRegion(fr, nil, fn.Blocks[0], ent)
+	rets := e.callMulti(st, fn, args, bind)
 	var merged *St
 	var vals []Value
-	for _, r := range fr.returns {
+	for _, r := range rets {
 		if r.st.pc.IsFalse() {
 			continue
 		}
@@ -571,6 +565,55 @@ func (e *Engine) CallFunc(st *St, fn *ssa.Function, args []Value, bind []Value) 
 	st.pc, st.heap = merged.pc, merged.heap
 	e.cur = st
 	return vals
+}
+
+// callMulti runs fn and returns its return records unmerged (one per return site in merge
+// mode, one per path in fork mode).
+func (e *Engine) callMulti(st *St, fn *ssa.Function, args []Value, bind []Value) []retRec {
+	if fn.Blocks == nil {
+		e.unsupported("call of function without body: " + fn.String())
+	}
+	depth := 0
+	for _, f := range e.stack {
+		if f == fn {
+			depth++
+		}
+	}
+	if depth >= e.Cfg.RecBound {
+		if e.feasible(st.pc) {
+			e.Unwinds = append(e.Unwinds, Record{Cond: st.pc, Msg: fmt.Sprintf("recursion of %s deeper than %d", fn, e.Cfg.RecBound), Stack: e.where(), Kind: "unwind"})
+		}
+		return nil
+	}
+	if len(e.stack) > 200 {
+		e.unsupported("call stack too deep")
+	}
+	e.FuncsSeen[fn.String()]++
+	if e.Cfg.Trace && e.booting == 0 {
+		fmt.Fprintf(os.Stderr, "%*scall %s terms=%d\n", len(e.stack), "", fn.String(), e.S.Created)
+	}
+	fr := &frame{fn: fn, fi: e.info(fn), forkMode: e.Cfg.ForkFuncs[fn.Name()] && e.booting == 0}
+	savedStack, savedPos := e.stack, e.posStack
+	e.stack = append(e.stack, fn)
+	e.posStack = append(e.posStack, token.NoPos)
+	defer func() {
+		e.stack, e.posStack = savedStack, savedPos
+	}()
+	ent := &St{pc: st.pc, heap: st.heap, env: make(map[ssa.Value]Value, 32)}
+	if len(args) != len(fn.Params) {
+		panic(fmt.Sprintf("engine: %s called with %d args, wants %d", fn, len(args), len(fn.Params)))
+	}
+	for i, p := range fn.Params {
+		ent.env[p] = args[i]
+	}
+	if len(bind) != len(fn.FreeVars) {
+		panic(fmt.Sprintf("engine: %s called with %d bindings, wants %d", fn, len(bind), len(fn.FreeVars)))
+	}
+	for i, fv := range fn.FreeVars {
+		ent.env[fv] = bind[i]
+	}
+	e.runRegion(fr, nil, fn.Blocks[0], []*St{ent})
+	return fr.returns
 }
 
 func (e *Engine) zeroResults(fn *ssa.Function) []Value {
